@@ -14,6 +14,7 @@ pub mod fetch;
 mod backend;
 mod configx;
 mod unusable;
+mod registry;
 
 use std::collections::HashMap;
 
@@ -70,6 +71,7 @@ fn main() {
         "datadir-child" => unusable::run_datadir_child(&args),
         "damage" => unusable::run_damage(&args),
         "faultdiag" => unusable::run_faultdiag(&args),
+        "registry" => registry::run(&args),
         other => {
             eprintln!("unknown stream {other}");
             std::process::exit(2);
